@@ -93,3 +93,8 @@ Proof. intros D V. unfold deviates_MinPathCoverCycles in V. norm_hyps. complete_
 Theorem accepts_domain_MinPathCoverCycles i :
   in_domain_MinPathCoverCycles i = true -> search_enters i = true -> validate_MinPathCoverCycles i = Accept.
 Proof. intros D S. accept_script i. Qed.
+
+(* old behaviour: an out-of-range length-based coverage was accepted when no constraint was passed *)
+Theorem old_validate_kPathCover_refuted_coverage_length :
+  exists i, in_domain_kPathCover i = false /\ old_validate_kPathCover i = Accept.
+Proof. exists (set_covlen ex_dag (Some (3#2)%Q) true). vm_compute. auto. Qed.
